@@ -280,6 +280,53 @@ def plainB : Instruction → Bool
   | .gateDefinition _ | .circuitDefinition _ _ _ _ => false
   | _ => true
 
+/-! Nested definitions in a calibration body.  The specification's traversals are "of the instruction itself":
+they rewrite the identifier and the specification of a nested definition (not the instructions of its body).
+The code's substitution visits only SOME of those positions: it rewrites the parameters of a nested DEFCAL, the
+attribute expressions of a DEFFRAME, the matrix of a DEFWAVEFORM / DEFGATE, but none of the qubits of a nested
+DEFFRAME / DEFCAL / DEFCAL MEASURE identifier, none of the expressions of a `PAULI-SUM` specification and nothing
+inside the gates of a `SEQUENCE` specification.  A nested definition is therefore admitted exactly when those
+unvisited positions mention none of the enclosing calibration's variables (`nestedOkB`); `DEFCIRCUIT` is always
+admitted (neither side enters it). -/
+
+/-- the names of the qubit variables of a calibration identifier -/
+def qubitVarNames (qs : List Qubit) : List String :=
+  qs.filterMap (fun q => match q with | .variable n => some n | _ => none)
+
+/-- the names of the parameter variables of a calibration identifier -/
+def paramVarNames (ps : List PExpr) : List String :=
+  ps.filterMap (fun e => match e with | .var n => some n | _ => none)
+
+/-- the qubit is not one of the variables `qn` -/
+def qubitFree (qn : List String) : Qubit → Bool
+  | .variable n => !qn.contains n
+  | _ => true
+
+/-- the expression mentions none of the variables `pn` -/
+def exprFree (pn : List String) (e : PExpr) : Bool := e.vars.all (fun x => !pn.contains x)
+
+def gateFree (qn pn : List String) (g : Gate) : Bool :=
+  g.qubits.all (qubitFree qn) && g.parameters.all (exprFree pn)
+
+/-- a nested definition whose positions NOT visited by the code's substitution mention none of the enclosing
+calibration's qubit variables `qn` / parameter variables `pn` -/
+def nestedOkB (qn pn : List String) : Instruction → Bool
+  | .frameDefinition fd => fd.identifier.qubits.all (qubitFree qn)
+  | .calibrationDefinition id _ => id.qubits.all (qubitFree qn)
+  | .measureCalibrationDefinition id _ => qubitFree qn id.qubit
+  | .circuitDefinition _ _ _ _ => true
+  | .gateDefinition gd =>
+    match gd.specification with
+    | .matrix _ => true
+    | .permutation _ => true
+    | .pauliSum s => s.terms.all (fun t => exprFree pn t.expression)
+    | .sequence s => s.gates.all (gateFree qn pn)
+  | _ => false
+
+/-- the body instructions the faithful-substitution theorem for GATE calibrations covers: every plain
+instruction and every admitted nested definition -/
+def admitB (qn pn : List String) (i : Instruction) : Bool := plainB i || nestedOkB qn pn i
+
 def refsOfArith : ArithmeticOperand → List MemRef
   | .memoryReference r => [r]
   | _ => []
@@ -329,11 +376,47 @@ def formalCoveredB (formal : Option String) (i : Instruction) : Bool :=
   | none => true
   | some f => (otherRefs i).all (fun r => r.name != f)
 
-/-- decidable hypothesis of the partial theorems: every calibration body consists of plain instructions, and
-every measurement calibration uses its formal target name only in CAPTURE / RAW-CAPTURE memory references,
-nested MEASURE targets and PRAGMA LOAD-MEMORY data -/
+/-- the expressions of a nested definition that the specification's traversal visits -/
+def nestedExprs : Instruction → List PExpr
+  | .frameDefinition fd => fd.attributes.filterMap (fun kv => match kv.2 with | .expression e => some e | _ => none)
+  | .calibrationDefinition id _ => id.parameters
+  | .gateDefinition gd =>
+    match gd.specification with
+    | .matrix rows => rows.flatten
+    | .permutation _ => []
+    | .pauliSum s => s.terms.map (·.expression)
+    | .sequence s => s.gates.flatMap (·.parameters)
+  | _ => []
+
+/-- the body instructions the faithful-substitution theorem for MEASUREMENT calibrations covers: a plain
+instruction that uses the formal target only where the code rewrites it (known finding), or a nested definition
+whose unvisited positions do not mention the calibration's qubit variable and whose expressions do not refer to
+the formal target -/
+def admitMB (qn : List String) (formal : Option String) (i : Instruction) : Bool :=
+  (plainB i && formalCoveredB formal i) ||
+  (nestedOkB qn [] i &&
+    match formal with
+    | none => true
+    | some f => (nestedExprs i).all (fun e => e.addrs.all (fun r => r.name != f)))
+
+/-- decidable hypothesis of the partial theorems:
+* every body instruction of a GATE calibration is plain or an admitted nested definition (`admitB` with the
+  calibration's own variable names);
+* every body instruction of a MEASUREMENT calibration is plain and uses the formal target name only in CAPTURE /
+  RAW-CAPTURE memory references, nested MEASURE targets and PRAGMA LOAD-MEMORY data (known finding), or is an
+  admitted nested definition that does not refer to the formal target (`admitMB`) -/
 def coveredB (cals : Cals) : Bool :=
-  cals.cals.all (fun c => c.instructions.all plainB) &&
-  cals.mcals.all (fun c => c.instructions.all (fun i => plainB i && formalCoveredB c.identifier.target i))
+  cals.cals.all (fun c => c.instructions.all
+    (admitB (qubitVarNames c.identifier.qubits) (paramVarNames c.identifier.parameters))) &&
+  cals.mcals.all (fun c => c.instructions.all
+    (admitMB (qubitVarNames [c.identifier.qubit]) c.identifier.target))
+
+/-- some calibration body holds a nested definition outside the domain of the faithful-substitution theorems
+(its unvisited positions mention the enclosing calibration's variables, or its expressions the formal target) -/
+def nestedExcludedB (cals : Cals) : Bool :=
+  cals.cals.any (fun c => c.instructions.any (fun i =>
+    !admitB (qubitVarNames c.identifier.qubits) (paramVarNames c.identifier.parameters) i)) ||
+  cals.mcals.any (fun c => c.instructions.any (fun i =>
+    !plainB i && !admitMB (qubitVarNames [c.identifier.qubit]) c.identifier.target i))
 
 end QV.C17
